@@ -19,7 +19,7 @@ from vlib.proto import C, T, is_c, is_t, show, subterms
 from vlib.front import unparse, dotted, const_value, AnchorMissing
 
 TR = 'phylib/io/traces.py'
-FLOOR = 18
+FLOOR = 13
 REQUIRED = ['pos', 'neg', 'add', 'radd', 'sub', 'rsub', 'mul', 'rmul', 'truediv', 'rtruediv', 'floordiv', 'rfloordiv', 'pow', 'rpow']
 ELEMENTWISE = set(REQUIRED) | {'div', 'rdiv', 'mod', 'rmod', 'abs', 'invert', 'and', 'rand', 'or', 'ror', 'xor', 'rxor',
                                'lshift', 'rlshift', 'rshift', 'rrshift', 'lt', 'le', 'gt', 'ge', 'eq', 'ne'}
